@@ -62,8 +62,8 @@ deriving Repr
 
 /-- kernel path walk: `cur` is a directory; `follow` = follow a symbolic link in the final position -/
 def walk (fs : Fs) : Nat → CPath → List Name → Bool → Res
-  | 0, _, _, _ => .err .eloop
-  | _ + 1, cur, [], _ => .found cur .dir
+  | _, cur, [], _ => .found cur .dir
+  | 0, _, _ :: _, _ => .err .eloop
   | fuel + 1, cur, c :: rest, follow =>
     if c = [46] then walk fs fuel cur rest follow
     else if c = dotdot then walk fs fuel cur.dropLast rest follow
